@@ -684,7 +684,7 @@ def c_obool(x):
 
 def run_values(run, seed, quick):
     r = core.rng(seed, "C09", "values")
-    cases = gen_value_cases(r, 1500 if quick else 40000)
+    cases = gen_value_cases(r, 2500 if quick else 40000)
     # plus every pair inside each class (equal) and one representative pair across classes (unequal)
     for kind, cs in NUM_CLASSES.items():
         for c in cs:
@@ -952,7 +952,7 @@ def run(run, tier, seed, replay=None):
     # ------------------------------------------------------------------ values (validation / == / hash of the number-like values)
     vstat = run_values(run, seed, quick)
     # ------------------------------------------------------------------ structured random
-    n_rand = 330 if quick else 12000
+    n_rand = 480 if quick else 12000
     rg = []
     for k in range(n_rand):
         r = core.rng(seed, "C09", "random", k)
@@ -976,7 +976,7 @@ def run(run, tier, seed, replay=None):
         g, o = keep[len(keep) // 2]
         run.sample(dict(stream="random", universe=g["univ"], history=g["hists"][0], observed=o[0]["obs"]))
     # ------------------------------------------------------------------ malformed
-    n_bad = 60 if quick else 1500
+    n_bad = 80 if quick else 1500
     mg = malformed(core.rng(seed, "C09", "malformed"), n_bad)
     keep, res, skipped = evaluate(run, "malformed", mg)
     nh = sum(len(g["hists"]) for g, _ in keep)
